@@ -66,12 +66,6 @@ def api(cargo_ver: str) -> str:
         raise MesonException(f'Cannot determine API version from {cargo_ver!r}.')
 
 
-# Tokens: a digit run, an alphanumeric-with-hyphens identifier (covers the
-# leading ``-`` of the pre-release section and identifiers within it), or the
-# ``+`` that introduces build metadata.
-_SEMVER_TOK_RE = re.compile(r'(\d+)|([A-Za-z-][0-9A-Za-z-]*)|(\+.*)')
-
-
 class SemVer:
     """A SemVer 2.0.0 version, suitable for ordering.
 
@@ -93,30 +87,17 @@ class SemVer:
     def __init__(self, in_: str | list[int | str] = None) -> None:
         vec: list[int | str]
         if isinstance(in_, str):
-            vec = []
-            pre = False
-            specified_count = 0
-            for m in _SEMVER_TOK_RE.finditer(in_):
-                if m.group(1):
-                    if pre or specified_count < 3:
-                        vec.append(int(m.group(1)))
-                        if not pre:
-                            specified_count += 1
-                elif m.group(2):
-                    ident = m.group(2)
-                    if not pre:
-                        # The leading ``-`` is just a section marker.
-                        if ident.startswith('-'):
-                            ident = ident[1:]
-                            if not ident:
-                                continue
-                        while len(vec) < 3:
-                            vec.append(0)
-                        vec.append(-1)
-                        pre = True
-                    vec.append(ident)
-                else:
-                    break  # +build metadata: discard the rest
+            # <core>[-<pre-release>][+<build metadata>]; build metadata is ignored.
+            core, _, prerelease = in_.partition('+')[0].partition('-')
+            vec = [int(n) for n in re.findall(r'\d+', core)[:3]]
+            specified_count = len(vec)
+            idents = [i for i in prerelease.split('.') if i]
+            if idents:
+                while len(vec) < 3:
+                    vec.append(0)
+                vec.append(-1)
+                # Identifiers consisting of only digits are compared numerically
+                vec.extend(int(i) if i.isdigit() else i for i in idents)
         else:
             # Direct construction from a pre-built component list.
             vec = list(in_)
